@@ -32,12 +32,39 @@ RULE = ('signatures: a fixed catalogue (T, method-level S, constrained TC/TCP, b
         'and against the same call seen through alone. Every instance is created in generated module source. non-trivial = some step checks a value '
         'against a TypeVar. OBJECT LIFETIMES: every Cls[X]() is created right after an instance Cls[object]() of the same class was used once and discarded '
         '(the creation is repeated, with one more discarded instance each time, until the new instance has the address of a dead one - a handful of rounds at most: '
-        'what is remembered per address would be inherited from the dead instance)')
+        'what is remembered per address would be inherited from the dead instance). UNION ALTERNATIVES: unions whose members are containers with a '
+        'constrained / bound / plain TypeVar inside next to TypeVar-free containers (16 catalogue signatures: the TypeVar alternative first / last, the '
+        'TypeVar tied before / after the union is reached, in the result, at a nested position, Optional, three members, two TypeVar alternatives) x nine '
+        'store kinds x values for the union position (no / one / two elements from classes that pass / fail the constraint or bound, both orders, the '
+        'wrong container, None) x values for the other occurrence of the TypeVar - an alternative that fails at its first element, half-way (after it '
+        'tied the TypeVar) or for its container class while another alternative accepts; the same shapes in the random annotation grammar, values built '
+        'for one alternative with classes that do not follow the call. VARIADIC PARAMETERS annotated with TypeVars (*args: T, **kwargs: T, **options: '
+        'List[T], Optional[T], Dict[str, T], constrained, method-level, with and without named parameters / a T-typed result): every store kind x the '
+        'keyword used for an extra keyword argument drawn from a pool that contains the names of the * / ** parameters themselves (args, kwargs, kw, '
+        'options, entries, args_), names of parameters of other functions and neutral names x agreeing / clashing values; values collected by *args '
+        '(the named parameters are then passed by position); the same in the random signatures and histories. The checks of a ** parameter are DERIVED '
+        'by the model (translated filter of not_yet_check_kwargs) and by the specification (every keyword that names no named parameter) from the '
+        'keyword arguments of the call. CLASS SHAPES (shared with C08: generic_shape_cases): 16 class statements - Generic[T], Generic[T, S], List[T], '
+        'Dict[T, S], Sequence[T], List[List[T]], UBase[T] with / without re-listing Generic[T], a plain mixin before / after Generic[T] / List[T], '
+        'Dict[str, T] before / after Generic[T], Dict[T, S] with Generic[T, S] / Generic[S, T] - each with and without __init__ (which makes a checked '
+        'call on the instance under construction and journals what it raises), created with several X and without type arguments, then 2..3 method '
+        'calls (class-level / method-level / no TypeVars, T-typed result, **entries: T, a union alternative) with values that conform / do not conform to X; '
+        'the model DERIVES the store kind and the bindings T -> X from the class statement as typing presents it (__bases__, __parameters__, __orig_bases__) and '
+        'the type arguments of the creating expression; the specification reads "created as Cls[X]" off the same declarations; every outcome that is '
+        'not a return / PedanticTypeVarMismatchException / PedanticTypeCheckException is a failure')
 EXHAUSTIVE = {'quick': False, 'thorough': False}
 ASSUMPTIONS = ['annotations and X come from the modelled vocabulary: classes without __annotations__ tricks (no NamedTuple values), Any, TypeVars '
                '(bare, constrained by classes, bound by a class or by its name), List / Dict / Tuple / Tuple[x, ...] / Optional / Union / Type; '
-               'unions have >= 2 distinct members and are not nested directly (typing flattens them)',
-               '__init__ is outside the claim (CPython sets __orig_class__ after __init__ returns); what it leaves in the per-instance store is modelled',
+               'unions have >= 2 distinct members and are not nested directly (typing flattens them); claimed: TypeVar-free unions, Optional[a], and unions whose '
+               'TypeVars sit inside ONE container alternative (only an alternative that accepts the value ties TypeVars; a failed one contributes nothing); other '
+               'unions that mention a TypeVar are modelled and compared, not claimed',
+               'an instance is "created as Cls[X](...)" when the creating expression carries type arguments - whatever makes the class generic, and from the first '
+               'check on: the parameters of __init__ and the calls __init__ makes are claimed (CPython sets __orig_class__ only after __init__ has returned: finding '
+               'initOfGenericInstanceUnchecked); what __init__ leaves in the per-instance store is modelled',
+               'constrained TypeVars: the runtime class of a value must BE one of the constraints (a bool at TypeVar(\'TC\', int, str) is rejected) - the reading '
+               'of the library, stated as a choice of the specification (Spec.walkTV)',
+               'every keyword argument that names no named parameter is a value of the ** parameter, whatever it is called; *args values are passed by position '
+               'together with the named parameters (the library allows positional arguments only for functions whose source mentions *args)',
                'unparametrised instances of a generic class, and Type[T] positions (the code never compares the class object with T), are modelled and compared but not claimed',
                'keyword calls only; the values are checked, not consumed, by the method bodies; a body makes its nested calls in order, catches and journals whatever '
                'they raise, and then returns the value prepared for it (the outcome of a nested call reaches its caller through the journal only)',
@@ -45,7 +72,9 @@ ASSUMPTIONS = ['annotations and X come from the modelled vocabulary: classes wit
                'generator functions (-> Iterator / Generator[.., None, None] / Iterable) yield the items of a list they are handed and are driven with next() until they are exhausted '
                'or raise (no send / throw / close: the GenWrap check); coroutine functions await asyncio.sleep(0) once or twice and are gathered on one event loop; a body keeps only '
                'calls WITHOUT nested calls in flight']
-TRUSTED = ['typing introspection of the generated annotations (get_type_arguments, __constraints__, __bound__, __orig_class__, __orig_bases__) is exercised, not modelled',
+TRUSTED = ['typing introspection of the generated annotations (get_type_arguments, __constraints__, __bound__, __orig_class__, __orig_bases__) is exercised, not modelled: '
+           'what typing makes of a class statement (Generic in __bases__, __parameters__, the entries of __orig_bases__) is read off undecorated twins of the '
+           'class shapes, sent to the model as facts of the program and compared with the decorated classes of every generated module',
            'issubclass on the harness class table is sent to the model as the relation `sub`',
            'the constructor-call source scan (_assert_constructor_called_with_generics) is a flag of the generated program, modelled as "the accessor raises"',
            'GeneratorWrapper (which annotation argument is the yield / send / return type, when send / return are checked: the GenWrap check) and asyncio (round-robin '
@@ -161,8 +190,12 @@ def val_class(v):
 
 # ------------------------------------------------------------------ signatures and cases
 
-def sig(ps, ret=None, defs=None, flav=None, awaits=1):
+def sig(ps, ret=None, defs=None, flav=None, awaits=1, va=None, vk=None):
     """ps: [(param name, annotation)]; ret: annotation of the result (None: `-> None`, the body returns nothing).
+    va: annotation of a variadic positional parameter `*args: va` (always named `args`: the library allows positional values only for a
+    function whose source mentions `*args`); vk: (name, annotation) of a variadic keyword parameter `**name: annotation`.  A call passes
+    `pos` (values collected by *args; the named parameters are then passed by position as well) and `xkw` ([key, value] pairs collected
+    by **name, in call order).  Both stand after the named parameters (and after `r`).
     With a result annotation the method gets an extra parameter `r: object` and returns it.
     defs: {param name: value} — these parameters (a suffix of ps) have that DEFAULT value; a call may omit them.  With defaults
     the parameter `r` stands first (a parameter without default cannot follow one with a default).
@@ -173,6 +206,12 @@ def sig(ps, ret=None, defs=None, flav=None, awaits=1):
     s = {'ps': [[n, a] for n, a in ps], 'ret': ret}
     if defs:
         s['defs'] = dict(defs)
+    if va is not None:
+        s['va'] = va
+    if vk is not None:
+        s['vk'] = [vk[0], vk[1]]
+    if (va is not None or vk is not None) and (defs or flav):
+        raise ValueError('variadic signatures are ordinary functions without defaults')
     if flav:
         s['flav'] = flav
         if flav == 'async':
@@ -189,12 +228,16 @@ def sig_name(s):
     return 'm' + hashlib.sha1(json.dumps(s, sort_keys=True).encode()).hexdigest()[:12]
 
 
-def sig_checks(s, vals, r=None):
+def sig_checks(s, vals, r=None, pos=None, xkw=None):
     """the checks of a call in the order they are made; an omitted parameter is checked with its default value"""
-    return [c for seg in sig_segs(s, vals, r) for c in seg]
+    return [c for seg in sig_segs(s, vals, r, pos, xkw) for c in seg]
 
 
-def sig_segs(s, vals, r=None):
+def variadic(s):
+    return 'va' in s or 'vk' in s
+
+
+def sig_segs(s, vals, r=None, pos=None, xkw=None, with_vk=True):
     """the checks of a call grouped by the moments they are made: an ordinary function — the parameters, [the body], the result;
     a generator function (r = the list of values it yields) — the parameters when the call is made, then per next(): the None sent in
     (not for the first one) and the yielded value, last the None sent in and the None returned; a coroutine function — the parameters
@@ -212,6 +255,9 @@ def sig_segs(s, vals, r=None):
     out += [[a, vals[n] if n in vals else defs[n]] for n, a in s['ps']]
     if s['ret'] is not None and not defs:
         out.append([OBJ, r])
+    # what *args collected (in order), then what **kwargs collected (every keyword that names no parameter, in call order)
+    out += [[s['va'], v] for v in (pos or [])] if 'va' in s else []
+    out += [[s['vk'][1], v] for _, v in (xkw or [])] if ('vk' in s and with_vk) else []
     last = [[s['ret'], r]] if s['ret'] is not None else [[NONE, VNONE]]
     if flav == 'async':
         return [out] + [[] for _ in range(s.get('awaits', 1) - 1)] + [last]
@@ -241,12 +287,16 @@ GENERIC = ('Box', 'BoxI', 'Pair', 'Raw')
 
 def inst_model(d):
     c = d['cls']
+    if c == 'Shape':
+        return dict(shape_table()[d['shape']], k='shape', act=d.get('X'))
+    # the generic classes of the module as class statements (shape) + the type arguments of the creating expression: the model derives
+    # the store kind and the bindings T -> X from them, the specification reads "created as Cls[X]" off them
     if c in ('Box', 'BoxI'):
-        return {'k': 'generic', 'p': [TV['T']], 'g': [[TV['T'], d['X'][0]]]}
+        return dict(shape_table()['G'], k='shape', act=list(d['X']))
     if c == 'Pair':
-        return {'k': 'generic', 'p': [TV['T'], TV['S']], 'g': [[TV['T'], d['X'][0]], [TV['S'], d['X'][1]]]}
+        return dict(shape_table()['GG'], k='shape', act=list(d['X']))
     if c == 'Raw':
-        return {'k': 'generic', 'p': [TV['T']], 'g': []}
+        return dict(shape_table()['G'], k='shape', act=None)
     if c == 'NG':
         return {'k': 'reset'}
     if c == 'Direct':
@@ -254,7 +304,61 @@ def inst_model(d):
     return {'k': 'plain'}
 
 
-INSTANCE_KINDS = ('Box', 'BoxI', 'Pair', 'Raw', 'NG', 'Direct')
+INSTANCE_KINDS = ('Box', 'BoxI', 'Pair', 'Raw', 'NG', 'Direct', 'Shape')
+
+# ---- class shapes: how a @pedantic_class class comes by its type parameters.  {'cls': 'Shape', 'shape': id, 'init': bool, 'X': [annotations] | None}
+#      (`init`: the class defines __init__, which may call a method before it returns; X None: created without type arguments)
+SHAPES = {
+    'G': 'Generic[T]', 'GG': 'Generic[T, S]',                                   # an explicit Generic[...]
+    'L': 'List[T]', 'D': 'Dict[T, S]', 'Sq': 'Sequence[T]', 'LL': 'List[List[T]]',  # a typing alias base (typing adds Generic to __bases__; no Generic[...] entry)
+    'UB': 'UBase[T]', 'UBG': 'UBase[T], Generic[T]',                            # a user generic base, without / with re-listing Generic[T]
+    'MG': 'Mixin, Generic[T]', 'GM': 'Generic[T], Mixin', 'LM': 'List[T], Mixin', 'ML': 'Mixin, List[T]',     # several bases, either order
+    'DsG': 'Dict[str, T], Generic[T]', 'GDs': 'Generic[T], Dict[str, T]', 'DG': 'Dict[T, S], Generic[T, S]', 'DGr': 'Dict[T, S], Generic[S, T]',
+}
+SHAPE_PRELUDE = 'class Mixin: pass\n'
+SHAPE_EXTRA = {'Sq': '    def __getitem__(self, i: int) -> object: return None\n    def __len__(self) -> int: return 0\n'}
+
+
+def _typing_ann(x):
+    """a type argument as it stands in __orig_bases__ -> annotation term"""
+    import typing
+    if isinstance(x, typing.TypeVar):
+        return tv(x.__name__)
+    if isinstance(x, type) and x.__name__ in IDX:
+        return cls(x.__name__)
+    if typing.get_origin(x) is list:
+        return lst(_typing_ann(typing.get_args(x)[0]))
+    raise ValueError(f'type argument {x!r} of a base is outside the vocabulary')
+
+
+def shape_facts(c):
+    """what typing made of the class statement: (Generic in __bases__, names of __parameters__, per entry of __orig_bases__: is it Generic[...], its arguments)"""
+    import typing
+    return {'gen': typing.Generic in c.__bases__, 'p': [TV[t.__name__] for t in getattr(c, '__parameters__', ())],
+            'ob': [[typing.get_origin(b) is typing.Generic, [_typing_ann(a) for a in typing.get_args(b)]] for b in getattr(c, '__orig_bases__', ())]}
+
+
+_SHAPE_TABLE = {}
+
+
+def shape_table():
+    """the facts of every shape, read off undecorated twins of the classes (the generated module checks them against the decorated ones)"""
+    if not _SHAPE_TABLE:
+        ns = {}
+        exec('from typing import *\n' + ''.join(f'{n} = {src}\n' for n, src, _ in TVS[:2]) + SHAPE_PRELUDE + 'class UBase(Generic[T]): pass\n'
+             + ''.join(f'class Sh{sid}({bases}):\n' + SHAPE_EXTRA.get(sid, '    pass\n') for sid, bases in SHAPES.items()), ns)
+        for sid in SHAPES:
+            _SHAPE_TABLE[sid] = shape_facts(ns['Sh' + sid])
+    return _SHAPE_TABLE
+
+
+def shape_x(d):
+    return ', '.join(ann_src(x) for x in d['X'])
+
+
+def shape_variant(d):
+    return f"Sh{d['shape']}{int(bool(d.get('init')))}"
+
 HOWS = ('self', 'obj', 'plain', 'static', 'classm')
 
 
@@ -287,13 +391,20 @@ def mk_case(insts, steps, origin):
     started = set()
 
     def fn_id(i, st):
-        key = (insts[i]['cls'], node_name(st))
+        key = (variant_of(insts[i]), node_name(st))
         return fns.setdefault(key, len(fns))
 
     def mstep(st, op, job=False):
         i = st['i']
-        segs = sig_segs(st['sig'], st['vals'], st.get('r'))
+        sg = st['sig']
+        segs = sig_segs(sg, st['vals'], st.get('r'), st.get('pos'), st.get('xkw'), with_vk=False)
         m = {'i': i, 'f': fn_id(i, st), 'init': op == 'init', 'scan': op == 'scan', 'checks': [c for seg in segs for c in seg]}
+        if 'vk' in sg:
+            # the checks of the `**` parameter are derived by the model / the specification from ALL keyword arguments of the call (in call order)
+            named = [n for n, _ in sg['ps']] + (['r'] if sg['ret'] is not None else [])
+            items = ([] if st.get('pos') else [[n, st['vals'][n]] for n, _ in sg['ps'] if n in st['vals']] + ([['r', st.get('r')]] if sg['ret'] is not None else [])) \
+                + [[k, v] for k, v in st.get('xkw') or []]
+            m['vkw'] = {'named': named, 'vnames': (['args'] if 'va' in sg else []) + [sg['vk'][0]], 'ann': sg['vk'][1], 'items': items, 'pos': len(segs[0])}
         if job:
             m['segs'] = [len(seg) for seg in segs]
             m['eager'] = st['sig'].get('flav') in GEN_FLAVS
@@ -313,7 +424,7 @@ def mk_case(insts, steps, origin):
                     raise ValueError('nested call on self names another instance')
                 if sched and k.get('kids'):
                     raise ValueError('a call in flight makes no nested calls')
-            m['kids'] = [mstep(k, 'call', job=sched) for k in st['kids']]
+            m['kids'] = [mstep(k, 'init' if op == 'init' else 'call', job=sched) for k in st['kids']]
             if sched:
                 if any(not (0 <= n < len(st['kids'])) for n in st['order']):
                     raise ValueError('order names a call that is not there')
@@ -332,7 +443,7 @@ def mk_case(insts, steps, origin):
         x = {'i': st['i'], 'op': op, 'sig': st['sig'], 'vals': st['vals'], 'r': st.get('r')}
         if st.get('kids'):
             x['kids'] = st['kids']
-        for key in ('order', 'aio'):
+        for key in ('order', 'aio', 'pos', 'xkw'):
             if key in st:
                 x[key] = st[key]
         xsteps.append(x)
@@ -408,6 +519,76 @@ CATALOGUE = {
     'm_LLT': sig([('a', lst(lst(T)))]),
     'm_OTupTT': sig([('a', T), ('b', opt(tup(T, T)))]),
 }
+# ---- unions whose alternatives are containers with TypeVars inside: an alternative fails (constraint / bound / class / shape) while
+#      another one accepts, and the same TypeVar occurs again in the call.  `a` is the union position.
+FLT = cls('float')
+UNION = {
+    'u_LTCLf': sig([('a', uni(lst(TC), lst(FLT))), ('b', TC)], ret=TC),                 # constrained, the failing alternative first
+    'u_LfLTC': sig([('a', uni(lst(FLT), lst(TC))), ('b', TC)], ret=TC),                 # ... last
+    'u_bLTCLf': sig([('b', TC), ('a', uni(lst(TC), lst(FLT)))]),                        # the TypeVar is tied before the union is reached
+    'u_LTCLo': sig([('a', uni(lst(TC), lst(OBJ))), ('b', TC)]),                         # the other alternative accepts everything
+    'u_DTBDi': sig([('a', uni(dct(STR, TB), dct(STR, INT))), ('b', TB)], ret=TB),       # bound
+    'u_LTBILs': sig([('a', uni(lst(TBI), lst(STR))), ('b', TBI)], ret=TBI),             # bound=int (bool is a subclass)
+    'u_LTFLi': sig([('a', uni(lst(TF), lst(INT))), ('b', TF)]),                         # bound given by name
+    'u_TupTC': sig([('a', uni(tup(TC, TC), tup(OBJ, OBJ))), ('b', TC)]),                # fixed-length tuple alternatives
+    'u_LLTLs': sig([('a', uni(lst(T), lst(STR))), ('b', T)], ret=T),                    # unconstrained (a class parameter on Box / Pair)
+    'u_LSLs': sig([('a', uni(lst(S), dct(STR, INT))), ('b', S)], ret=S),                # method-level, alternatives of different containers
+    'u_nest': sig([('a', lst(uni(lst(TBI), lst(STR)))), ('b', TBI)]),                   # the union at a nested position
+    'u_OLTC': sig([('a', opt(lst(TC))), ('b', TC)], ret=TC),                            # Optional
+    'u_3': sig([('a', uni(lst(TC), lst(FLT), NONE)), ('b', TC)]),                       # three members
+    'u_ret': sig([('b', TC)], ret=uni(lst(TC), lst(FLT))),                              # the union is the result
+    'u_two': sig([('a', uni(lst(TC), dct(STR, TC))), ('b', TC)]),                       # two TypeVar alternatives (modelled, not claimed)
+    'u_TCP': sig([('a', uni(lst(TCP), lst(INT))), ('b', TCP)], ret=TCP),                # constrained by user classes
+}
+
+# ---- variadic parameters annotated with TypeVars
+VARIADIC = {
+    'v_kT': sig([('a', T)], ret=T, vk=('kwargs', T)),
+    'v_kLT': sig([('a', T)], ret=T, vk=('options', lst(T))),
+    'v_aT': sig([], va=T),
+    'v_aTkT': sig([], va=T, vk=('kwargs', T)),
+    'v_TaT': sig([('a', T)], va=T),
+    'v_k0T': sig([], vk=('entries', T)),
+    'v_kS': sig([('a', S)], vk=('kw', S)),
+    'v_kOT': sig([('a', T)], vk=('kwargs', opt(T))),
+    'v_kTC': sig([('a', TC)], vk=('kwargs', TC)),
+    'v_kDT': sig([], vk=('kwargs', dct(STR, T))),
+    'v_aLSkS': sig([('a', S)], va=lst(S), vk=('args_', S)),
+    'v_kTret': sig([], ret=T, vk=('kwargs', T)),
+}
+# keys of extra keyword arguments: the names of the variadic parameters themselves, of other parameters of the catalogue, neutral ones
+KEY_POOL = ['args', 'kwargs', 'kw', 'options', 'entries', 'args_', 'other', 'x', 'b', 'item', 'key', 'value']
+
+
+def free_keys(s):
+    """keyword names a call may use for extra keyword arguments: every name that is not a named parameter of the function"""
+    taken = {n for n, _ in s['ps']} | {'r', 'self', 'cls'}
+    return [k for k in KEY_POOL if k not in taken]
+
+
+def fill_with(a, v):
+    """a value built along the annotation with `v` at every TypeVar position"""
+    k = a[0]
+    if k == 'tv':
+        return v
+    if k == 'cls':
+        return inst(CL[a[1]]) if CL[a[1]] in INST else vlist()
+    if k == 'any':
+        return inst('int')
+    if k in ('list',):
+        return vlist(fill_with(a[1], v))
+    if k == 'tuplevar':
+        return vtup(fill_with(a[1], v))
+    if k == 'dict':
+        return vdict([fill_with(a[1], v), fill_with(a[2], v)])
+    if k == 'tuple':
+        return vtup(*[fill_with(x, v) for x in a[1]])
+    if k == 'union':
+        tvm = [x for x in a[1] if ann_tvs(x)]
+        return fill_with(tvm[0] if tvm else a[1][0], v)
+    return clsobj('C1')
+
+
 ONE_TV_TWO_POS = ['m_TT', 'm_TOT', 'm_ret', 'm_LT', 'm_TDT', 'm_TupTT', 'm_TTupIT', 'm_LOT', 'm_OLT', 'm_UTI', 'm_TCTC', 'm_TCO_', 'm_TCP',
                   'm_TBTB', 'm_TBO', 'm_TBI', 'm_TFTF', 'm_TFO', 'm_CN', 'm_CO', 'm_COret', 'm_VOV', 'm_SS', 'm_Sret']
 SINGLE_PARAM = ['m_T', 'm_LT', 'm_OT', 'm_DT', 'm_TupTT', 'm_TupV', 'm_retonly', 'm_S', 'm_TC', 'm_TB', 'm_TF']
@@ -548,6 +729,10 @@ def conforming(rng, a, sigma, depth=3, gx=None):
     if k == 'union':
         if rng.random() < 0.1:
             return rand_value(rng, 1)
+        if rng.random() < 0.3 and any(ann_tvs(x) for x in a[1]):
+            # a value for one alternative whose elements do not follow the classes chosen for this call: the alternative may fail on a
+            # constraint / bound / class half-way while another alternative accepts
+            return conforming(rng, rng.choice(a[1]), {}, depth - 1, gx)
         return conforming(rng, rng.choice(a[1]), sigma, depth - 1, gx)
     if k == 'type':
         return clsobj(rng.choice(['int', 'P', 'C1', 'U', 'G', 'bool']))
@@ -569,6 +754,20 @@ def rand_ann(rng, tvs, depth):
     if r < 0.88:
         a = rand_ann(rng, tvs, depth - 1)
         return a if a[0] in ('union', 'any') or a == NONE else opt(a)
+    if r < 0.91 and depth >= 1:
+        # alternatives that are containers: one with a TypeVar inside, the others TypeVar-free (sometimes a second one with TypeVars)
+        t = tv(rng.choice(tvs))
+        mk = rng.choice([lst, lst, tupv, lambda x: dct(STR, x), lambda x: tup(x, x)])
+        ms = [mk(t)]
+        for _ in range(rng.randint(1, 2)):
+            other = rng.choice([lst, lst, tupv, lambda x: dct(STR, x), lambda x: tup(x, x)])(
+                rng.choice([INT, STR, OBJ, PP, cls('float'), cls('C1')] + ([tv(rng.choice(tvs))] if rng.random() < 0.2 else [])))
+            if other not in ms:
+                ms.append(other)
+        if rng.random() < 0.15:
+            ms.append(NONE)
+        rng.shuffle(ms)
+        return uni(*ms) if len(ms) >= 2 else ms[0]
     if r < 0.96:
         ms = []
         for _ in range(rng.randint(2, 3)):
@@ -586,13 +785,39 @@ def rand_sig(rng):
     ps = [('abc'[i], rand_ann(rng, pool, rng.choice([0, 1, 1, 2, 3]))) for i in range(n)]
     ret = rand_ann(rng, pool, rng.choice([0, 0, 1, 2])) if rng.random() < 0.3 else None
     defs = None
-    if rng.random() < 0.3:
+    r = rng.random()
+    if r < 0.3:
         sigma = {}
         defs = {nm: conforming(rng, a, sigma) for nm, a in ps[n - rng.randint(1, n):]}
+    elif r < 0.45:
+        # variadic parameters annotated with the TypeVars of the signature (bare or one container deep)
+        va = rand_ann(rng, pool, rng.choice([0, 0, 1])) if rng.random() < 0.5 else None
+        vk = (rng.choice(['kwargs', 'kwargs', 'kw', 'options', 'entries', 'args_']), rand_ann(rng, pool, rng.choice([0, 0, 1]))) if (va is None or rng.random() < 0.6) else None
+        return sig(ps[:rng.choice([0, 1, 1, n])], ret, va=va, vk=vk)
     return sig(ps, ret, defs)
 
 
-def rand_call(rng, i, s, gx=None):
+def rand_call(rng, i, s, gx=None, kind=None):
+    if variadic(s):
+        sigma = {}
+        vals = {n: conforming(rng, a, sigma, 3, gx) for n, a in s['ps']}
+        st = {'i': i, 'sig': s, 'vals': vals, 'r': None}
+        if 'va' in s and kind not in ('static', 'classm') and rng.random() < 0.7:
+            # static and class methods are called without the positional arguments by the library: keyword calls only there
+            pos = [conforming(rng, s['va'], sigma, 2, gx) for _ in range(rng.choice([1, 1, 2, 3]))]
+            st['pos'] = pos
+        if 'vk' in s:
+            keys = free_keys(s)
+            own = [k for k in ('args', s['vk'][0]) if k in keys]
+            picked = []
+            for _ in range(rng.choice([0, 1, 1, 2, 3])):
+                k = rng.choice(own) if rng.random() < 0.4 else rng.choice(keys)
+                if k not in picked:
+                    picked.append(k)
+            if picked:
+                st['xkw'] = [[k, conforming(rng, s['vk'][1], sigma, 2, gx)] for k in picked]
+        st['r'] = conforming(rng, s['ret'], sigma, 3, gx) if s['ret'] is not None else None
+        return st
     sigma = {}
     defs = s.get('defs') or {}
     omitted = {n for n in defs if rng.random() < 0.6}
@@ -639,7 +864,7 @@ def rand_history(rng, sigs, nmax=12):
             steps.append({'i': i, 'sig': INIT, 'vals': {'a': rand_value(rng, 1)}, 'op': 'init'})
             continue
         s = rng.choice(local)
-        steps.append(rand_call(rng, i, s, class_params(rng, d)))
+        steps.append(rand_call(rng, i, s, class_params(rng, d), d['cls']))
     return insts, steps
 
 
@@ -684,7 +909,7 @@ def shape_pool(rng, sigs, sizes):
 
 def instantiate(rng, shape, insts, i, how=None):
     d = insts[i]
-    st = rand_call(rng, i, shape['sig'], class_params(rng, d))
+    st = rand_call(rng, i, shape['sig'], class_params(rng, d), d['cls'])
     if how:
         st['how'] = how
     kids = [instantiate(rng, sub, insts, pick_target(rng, insts, h, i), h) for h, sub in shape['kids']]
@@ -701,7 +926,7 @@ def rand_nested_history(rng, pool, leaf_sigs):
         if rng.random() < 0.8:
             steps.append(instantiate(rng, rng.choice(pool), insts, i))
         else:
-            steps.append(rand_call(rng, i, rng.choice(leaf_sigs), class_params(rng, insts[i])))
+            steps.append(rand_call(rng, i, rng.choice(leaf_sigs), class_params(rng, insts[i]), insts[i]['cls']))
     return insts, steps
 
 
@@ -1038,7 +1263,7 @@ def cases(rng, tier):
         for k, (v1, v2) in enumerate(itertools.product(PROBE, PROBE)):
             vals, r = value_pair_for(cat[name], v1, v2)
             kinds = ['plain', 'NG', 'Direct', 'static', 'classm']
-            for c in (kinds if not quick else [kinds[k % 5], 'plain'][: 2 if k % 5 else 1]):
+            for c in (kinds if not quick else [kinds[(k + k // 16) % 5]]):
                 out.append(mk_case([{'cls': c}], [{'i': 0, 'sig': cat[name], 'vals': vals, 'r': r}], f'pairs/{c}'))
     # (2) Box[X]() x single-parameter methods x probe values; every method twice in a row (history of 2)
     for xi, x in enumerate(XS):
@@ -1107,8 +1332,12 @@ def cases(rng, tier):
             for d in (dkinds if not quick else [dkinds[k % len(dkinds)], dkinds[(k // 5) % len(dkinds)]]):
                 out.append(mk_case([dict(d)], [dict(first, i=0), dict(second, i=0), dict(third, i=0)], 'defaults/same'))
             out.append(mk_case([dict(dkinds[5]), dict(dkinds[6])], [dict(first, i=0), dict(second, i=1), dict(first, i=1), dict(second, i=0)], 'defaults/two'))
+    out += union_directed(rng, quick)
+    out += variadic_directed(rng, quick)
+    out += generic_shape_cases(rng, tier)
     # (6) seeded histories over catalogue + random signatures
-    sigs = list(cat.values()) + [rand_sig(rng) for _ in range(60 if quick else 600)]
+    cat_sigs = list(cat.values()) + list(UNION.values()) + list(VARIADIC.values())
+    sigs = cat_sigs + [rand_sig(rng) for _ in range(60 if quick else 600)]
     for _ in range(1500 if quick else 100000):
         insts, steps = rand_history(rng, sigs)
         if steps:
@@ -1119,25 +1348,203 @@ def cases(rng, tier):
         d = rand_inst(rng)
         if d['cls'] == 'BoxI':
             d['cls'] = 'Box'; d['warm'] = True
-        out.append(mk_case([d], [rand_call(rng, 0, s, class_params(rng, d))], 'single'))
+        out.append(mk_case([d], [rand_call(rng, 0, s, class_params(rng, d), d['cls'])], 'single'))
     # (8) nested calls, directed: outer kind x outer signature x body (same instance / other instance / plain / static / class method,
     #     depth 1..3) x values that agree or clash with the outer bindings
     out += nested_directed(rng, quick)
     # (9) nested calls, seeded: call trees instantiated from a pool of generated bodies (depth <= 3, 1..3 nested calls per body)
     small = [cat[n] for n in ('m_T', 'm_S', 'm_Sret', 'm_ret', 'm_SS', 'm_TT', 'm_TS', 'm_LT', 'm_OT', 'm_TOT', 'm_retonly', 'm_int', 'm_TC', 'm_TB',
-                              'm_CN', 'm_COret', 'm_UTS', 'd_SS', 'd_TT', 'd_TTret')] + [WARM] + sigs[len(cat):len(cat) + (8 if quick else 40)]
+                              'm_CN', 'm_COret', 'm_UTS', 'd_SS', 'd_TT', 'd_TTret')] + [WARM, UNION['u_LTCLf'], UNION['u_LLTLs'], VARIADIC['v_kT'], VARIADIC['v_TaT']] \
+        + sigs[len(cat_sigs):len(cat_sigs) + (8 if quick else 40)]
     pool = shape_pool(rng, small, (24, 16, 8) if quick else (160, 100, 50))
     for _ in range(1500 if quick else 60000):
         insts, steps = rand_nested_history(rng, pool, small)
         out.append(mk_case(insts, steps, 'nesthist'))
     # (10) overlapping calls of one function, seeded (the directed family is part of nested_directed): recursion trees, generator
     #      schedules, coroutine groups over catalogue + random signatures
-    nodef = [s_ for s_ in small + sigs[len(cat):] if not s_.get('defs')]
+    nodef = [s_ for s_ in small + sigs[len(cat_sigs):] if not s_.get('defs') and not variadic(s_)]
     opool = overlap_pool(rng, nodef, 60 if quick else 400)
     for _ in range(800 if quick else 40000):
         insts, steps = rand_overlap_history(rng, opool)
         out.append(mk_case(insts, steps, 'overlap'))
     return out
+
+
+def union_directed(rng, quick):
+    """(5d) unions with container alternatives: every catalogue signature of UNION x store kinds x values for the union position (no / one /
+    two elements from classes that pass or fail the constraint / bound of the TypeVar, in both orders; the wrong container; None) x values
+    for the other occurrence of the TypeVar.  An alternative that fails half-way (after it tied the TypeVar), at its first element, or for
+    its container class, next to an alternative that accepts; followed / preceded by a parameter and the result with the same TypeVar."""
+    I, Sx, Fl, Bo, Px, C1x, Ux = inst('int'), inst('str'), inst('float'), inst('bool'), inst('P'), inst('C1'), inst('U')
+    elems = {'TC': [I, Sx, Fl, Bo], 'TB': [C1x, Px, I, Ux], 'TBI': [I, Bo, Sx, Fl], 'TF': [C1x, Px, I, Sx], 'T': [I, Sx, Fl, C1x], 'S': [I, Sx, Fl, C1x],
+             'TCP': [Px, Ux, I, C1x]}
+    kinds = [{'cls': 'plain'}, {'cls': 'NG'}, {'cls': 'Direct'}, {'cls': 'static'}, {'cls': 'classm'}, {'cls': 'Box', 'X': [INT], 'warm': True},
+             {'cls': 'Box', 'X': [FLT], 'warm': False}, {'cls': 'Pair', 'X': [STR, INT], 'warm': True}, {'cls': 'Raw'}]
+    out = []
+    n = 0
+    stride = 11 if quick else 1
+    off = rng.randrange(stride)
+    for name, sg in UNION.items():
+        t = TVS[ann_tvs(dict(sg['ps']).get('b') or sg['ret'])[0]][0]
+        E = elems[t]
+        ua = dict((n_, a) for n_, a in sg['ps']).get('a') or sg['ret']
+        nest = name == 'u_nest'
+        seqs = [[]] + [[x] for x in E] + [[x, y] for x in E for y in E]
+        avals = []
+        for q in seqs:
+            forms = [vlist(*q), vtup(*q), vdict(*[[inst('str'), x] for x in q[:1]])] if name in ('u_DTBDi', 'u_LSLs', 'u_two', 'u_TupTC') else [vlist(*q)]
+            for f_ in forms:
+                if f_ not in avals:
+                    avals.append(f_)
+        avals += [VNONE, I]
+        if nest:
+            avals = [vlist(v) for v in avals] + [vlist(vlist(E[0]), vlist(E[2])), vlist(vlist(E[2]), vlist(E[0])), vlist(vlist(E[0], E[2]), vlist(E[1]))]
+        for av in avals:
+            for bv in E:
+                for kd in kinds:
+                    n += 1
+                    if (n + off) % stride:
+                        continue
+                    vals = {'b': bv}
+                    r = None
+                    if 'a' in dict(sg['ps']):
+                        vals['a'] = av
+                        r = bv if sg['ret'] is not None else None
+                    else:
+                        r = av
+                    st = {'i': 0, 'sig': sg, 'vals': vals, 'r': r}
+                    out.append(mk_case([dict(kd)], [st, dict(st)] if n % 4 == 0 else [st], 'unionalt'))
+    return out
+
+
+def variadic_directed(rng, quick):
+    """(5e) variadic parameters annotated with TypeVars: every catalogue signature of VARIADIC x store kinds x the keyword used for one extra
+    keyword argument (every name of the pool that is not a named parameter: the names of the `*` / `**` parameters themselves, `args`, `kwargs`,
+    names of parameters of other functions, neutral names) x values that agree / clash with the other values of the call; a second extra keyword;
+    values collected by *args (then the named parameters are passed by position as well)."""
+    I, Sx, Bo, C1x = inst('int'), inst('str'), inst('bool'), inst('C1')
+    kinds = [{'cls': 'plain'}, {'cls': 'NG'}, {'cls': 'Direct'}, {'cls': 'static'}, {'cls': 'classm'}, {'cls': 'Box', 'X': [INT], 'warm': True},
+             {'cls': 'Box', 'X': [STR], 'warm': False}, {'cls': 'Pair', 'X': [STR, INT], 'warm': True}, {'cls': 'Raw'}]
+    pairs = [(I, I), (I, Sx), (Sx, I), (I, Bo), (C1x, I)]
+    out = []
+    n = 0
+    stride = 7 if quick else 1
+    off = rng.randrange(stride)
+    for name, sg in VARIADIC.items():
+        keys = free_keys(sg)
+        for kd in kinds:
+            posable = 'va' in sg and kd['cls'] not in ('static', 'classm')
+            for (v1, v2) in pairs:
+                base = {'i': 0, 'sig': sg, 'vals': {n_: fill_with(a, v1) for n_, a in sg['ps']}, 'r': v1 if sg['ret'] is not None else None}
+                variants = []
+                if 'vk' in sg:
+                    for k in keys:
+                        variants.append({'xkw': [[k, fill_with(sg['vk'][1], v2)]]})
+                    own = sg['vk'][0]
+                    variants.append({'xkw': [['other', fill_with(sg['vk'][1], v1)], [own, fill_with(sg['vk'][1], v2)]]})
+                    variants.append({'xkw': [[own, fill_with(sg['vk'][1], v1)], ['args', fill_with(sg['vk'][1], v2)]]})
+                if posable:
+                    variants.append({'pos': [fill_with(sg['va'], v1), fill_with(sg['va'], v2)]})
+                    variants.append({'pos': [fill_with(sg['va'], v2)]})
+                    if 'vk' in sg:
+                        variants.append({'pos': [fill_with(sg['va'], v1)], 'xkw': [['args', fill_with(sg['vk'][1], v2)]]})
+                        variants.append({'pos': [fill_with(sg['va'], v1)], 'xkw': [[sg['vk'][0], fill_with(sg['vk'][1], v2)]]})
+                variants.append({})
+                for var in variants:
+                    n += 1
+                    if (n + off) % stride:
+                        continue
+                    st = dict(base, **var)
+                    out.append(mk_case([dict(kd)], [st, dict(st)] if n % 5 == 0 else [st], 'variadic'))
+    return out
+
+
+def generic_shape_cases(rng, tier):
+    """(5f) class shapes: @pedantic_class classes that are generic through an explicit Generic[...], a typing alias base (List[T], Dict[T, S],
+    Sequence[T], List[List[T]]), a user generic base (with / without re-listing Generic[T]), several bases in either order (a plain mixin, an
+    alias with other arguments than the class has parameters, Generic[...] with the parameters in another order); with / without __init__
+    (which makes a checked call before it returns: no __orig_class__ yet); created with / without type arguments; then method calls with
+    class-level, method-level and no TypeVars, `**entries: T`, a union alternative - values that conform / do not conform to X.
+    Every call must end in a return, PedanticTypeVarMismatchException or PedanticTypeCheckException as the specification of `Cls[X]` says;
+    any other exception out of the wrapper is a failure (the stream is shared with C08)."""
+    quick = tier == 'quick'
+    cat = CATALOGUE
+    I, Sx, C1x, Fl = inst('int'), inst('str'), inst('C1'), inst('float')
+    probes = [I, Sx, C1x, VNONE, vlist(I), Fl]
+    X1 = [[INT], [STR], [PP], [opt(INT)], [lst(INT)], None]
+    X2 = [[STR, INT], [INT, INT], [PP, lst(INT)], None]
+    names = ['m_T', 'm_ret', 'm_TT', 'm_LT', 'm_OT', 'm_S', 'm_SS', 'm_TS', 'm_int', 'm_retonly', None]
+    extra = [VARIADIC['v_k0T'], VARIADIC['v_kT'], UNION['u_LLTLs']]
+    out = []
+    n = 0
+    stride = 17 if quick else 1
+    off = rng.randrange(stride)
+    for sid in SHAPES:
+        two = len(shape_table()[sid]['p']) == 2
+        for has_init in (False, True):
+            for X in (X2 if two else X1):
+                d = {'cls': 'Shape', 'shape': sid, 'init': has_init, 'X': X}
+                calls = []
+                for nm in names:
+                    sg = cat[nm] if nm else WARM
+                    for k, v in enumerate(probes if ann_tvs_sig(sg) else probes[:1]):
+                        vals, r = value_pair_for(sg, v, v)
+                        calls.append({'i': 0, 'sig': sg, 'vals': vals, 'r': r})
+                        if len(sg['ps']) + (sg['ret'] is not None) >= 2 and k < 3:
+                            vals, r = value_pair_for(sg, v, probes[(k + 1) % 3])
+                            calls.append({'i': 0, 'sig': sg, 'vals': vals, 'r': r})
+                for sg in extra:
+                    for v in probes[:3]:
+                        if 'vk' in sg:
+                            vals = {n_: fill_with(a, v) for n_, a in sg['ps']}
+                            for key in (sg['vk'][0], 'args', 'item'):
+                                calls.append({'i': 0, 'sig': sg, 'vals': vals, 'r': v if sg['ret'] is not None else None, 'xkw': [[key, fill_with(sg['vk'][1], probes[1])]]})
+                        else:
+                            calls.append({'i': 0, 'sig': sg, 'vals': {'a': vlist(probes[1]), 'b': v}, 'r': v})
+                for k, call in enumerate(calls):
+                    n += 1
+                    if (n + off) % stride:
+                        continue
+                    steps = []
+                    if has_init:
+                        kid = [None, {'sig': WARM, 'vals': {}, 'r': None}, {'sig': cat['m_T'], 'vals': {'a': probes[k % 3]}, 'r': None},
+                               {'sig': cat['m_int'], 'vals': {'a': I}, 'r': None}][k % 4]
+                        st = {'i': 0, 'op': 'init', 'sig': WARM, 'vals': {}}
+                        if kid:
+                            st['kids'] = [dict(kid, i=0, how='self')]
+                        steps.append(st)
+                    other = calls[(k * 7 + 3) % len(calls)]
+                    steps += [dict(call), dict(other), dict(call)][: 2 + k % 2]
+                    out.append(mk_case([dict(d)], steps, 'shape'))
+    return out
+
+
+def ann_tvs_sig(s):
+    return [t for _, a in s['ps'] for t in ann_tvs(a)] + (ann_tvs(s['ret']) if s['ret'] is not None else []) \
+        + (ann_tvs(s['va']) if 'va' in s else []) + (ann_tvs(s['vk'][1]) if 'vk' in s else [])
+
+
+def judge_c08(case, impl, model):
+    """the view of C08 on the class-shape stream: every call made - the constructor, the call inside __init__, the calls after construction -
+    returns or raises a PedanticException; R_C08: the implementation lets another exception through only where the model does"""
+    j = judge(case, impl, model)
+    esc = lambda o: o is not None and (o.startswith('ESC') or o.startswith('CREATE:ESC'))
+    pfail, finding = None, None
+    corr, why = True, ''
+    for k, o in enumerate(impl['outs']):
+        mo = model['model'][k] if k < len(model['model']) else None
+        every = [(o, mo, None)] + [(x, (model['nested'][k] + [None] * len(impl['nested'][k]))[q], q) for q, x in enumerate(impl['nested'][k])]
+        for (a, b, q) in every:
+            if esc(a):
+                if b != 'ESC':
+                    corr, why = False, f'{describe(case, k, q)}: implementation {a}, model {b}'
+                if pfail is None:
+                    pfail = f'{describe(case, k, q)}: {a} reached the caller'
+                    if 'genericParamsFromFirstBase' in (model['regions'][k] if k < len(model['regions']) else []):
+                        finding = 'genericParamsFromFirstBaseEscapes'
+    if not corr:
+        finding = None
+    return {'corr': corr, 'pfail': pfail, 'finding': finding, 'nontrivial': j['nontrivial'], 'tag': 'c07' + j['tag'], 'why': why}
 
 
 def search(rng, tier, near):
@@ -1148,6 +1555,7 @@ def search(rng, tier, near):
         if steps:
             out.append(mk_case(insts, steps, 'search'))
     out += nested_directed(rng, True)
+    out += union_directed(rng, True) + variadic_directed(rng, True) + generic_shape_cases(rng, 'quick')
     return out
 
 
@@ -1174,9 +1582,13 @@ def method_src(name, s, self_kw='self', deco='', indent='    ', kids=None, mode=
     flav = s.get('flav')
     ps = ([self_kw] if self_kw else []) + (['r: object'] if s['ret'] is not None and defs else [])
     ps += [f'{n}: {ann_src(a)}' + (f' = {val_src(defs[n])}' if n in defs else '') for n, a in s['ps']]
+    if s['ret'] is not None and not defs:
+        ps.append('r: object')
+    if 'va' in s:
+        ps.append(f"*args: {ann_src(s['va'])}")
+    if 'vk' in s:
+        ps.append(f"**{s['vk'][0]}: {ann_src(s['vk'][1])}")
     if s['ret'] is not None:
-        if not defs:
-            ps.append('r: object')
         res = {'iter': 'Iterator[%s]', 'gen': 'Generator[%s, None, None]', 'itb': 'Iterable[%s]'}.get(flav, '%s') % ann_src(s['ret'])
         head = f'def {name}({", ".join(ps)}) -> {res}:'
         body = 'return r'
@@ -1195,14 +1607,14 @@ def method_src(name, s, self_kw='self', deco='', indent='    ', kids=None, mode=
     elif flav == 'rec':
         me = f'self.{name}' if self_kw == 'self' else (f'Box.{name}' if 'method' in deco else name)       # the very same function object
         lines = [head, '    _c = _CUR[0]', "    for _n in range(len(_c['kids'])):", '        _k = _enter(_c, _n)', '        try:',
-                 f"            {me}(**_k['kw'])", '        except BaseException as _e:', "            _k['exc'] = _e", '        _leave(_c)', '    ' + body]
+                 f"            {me}(*_k['pos'], **_k['kw'])", '        except BaseException as _e:', "            _k['exc'] = _e", '        _leave(_c)', '    ' + body]
     elif not kids:
         return decos + indent + head + ' ' + body + '\n'
     elif mode == 'sched':
         lines = [head, '    _c = _CUR[0]', '    _live = {}', "    for _n in _c['order']:", "        _k = _c['kids'][_n]", "        if _k['done']:", '            continue',
                  '        try:', '            if _n not in _live:', "                _k['ran'] = True"]
         for k, (how, child) in enumerate(kids):
-            lines += [f"                {'if' if k == 0 else 'elif'} _n == {k}:", f"                    _live[_n] = {target(how, child)}(**_k['kw'])"]
+            lines += [f"                {'if' if k == 0 else 'elif'} _n == {k}:", f"                    _live[_n] = {target(how, child)}(*_k['pos'], **_k['kw'])"]
         lines += ['            else:', "                _k['got'].append(next(_live[_n]))", '        except StopIteration:', "            _k['done'] = True",
                   '        except BaseException as _e:', "            _k['exc'] = _e", "            _k['done'] = True", '    ' + body]
     elif mode and mode.startswith('aio:'):
@@ -1210,7 +1622,7 @@ def method_src(name, s, self_kw='self', deco='', indent='    ', kids=None, mode=
         # the first one goes on) / awaited one after the other from a coroutine of this module (no overlap)
         lines = [head, '    _c = _CUR[0]', '    async def _all():', '        _res = []']
         for k, (how, child) in enumerate(kids):
-            call = f"{target(how, child)}(**_k['kw'])"
+            call = f"{target(how, child)}(*_k['pos'], **_k['kw'])"
             lines.append(f"        _k = _c['kids'][{k}]")
             if mode == 'aio:await':
                 lines += ['        try:', f'            await {call}', '            _res.append(None)', '        except BaseException as _e:', '            _res.append(_e)']
@@ -1227,7 +1639,7 @@ def method_src(name, s, self_kw='self', deco='', indent='    ', kids=None, mode=
     else:
         lines = [head, '    _c = _CUR[0]']
         for k, (how, child) in enumerate(kids):
-            lines += [f'    _k = _enter(_c, {k})', '    try:', f"        {target(how, child)}(**_k['kw'])", '    except BaseException as _e:', "        _k['exc'] = _e",
+            lines += [f'    _k = _enter(_c, {k})', '    try:', f"        {target(how, child)}(*_k['pos'], **_k['kw'])", '    except BaseException as _e:', "        _k['exc'] = _e",
                       '    _leave(_c)']
         lines.append('    ' + body)
     return decos + ''.join(indent + ln + '\n' for ln in lines)
@@ -1236,6 +1648,7 @@ def method_src(name, s, self_kw='self', deco='', indent='    ', kids=None, mode=
 NEST_HELPERS = """
 import asyncio
 _CUR = [None]
+_INIT = [None]
 def _enter(c, k):
     kid = c['kids'][k]
     kid['ran'] = True
@@ -1249,12 +1662,26 @@ def _leave(c):
 VARIANTS = ('Box', 'static', 'classm', 'BoxI', 'Pair', 'NG', 'Direct', 'plain')
 
 
-def variant_of(cls_):
+def variant_of(d):
     """the place in the generated module where the function an instance / kind uses is defined"""
-    return 'Box' if cls_ == 'Raw' else cls_
+    if d['cls'] == 'Shape':
+        return shape_variant(d)
+    return 'Box' if d['cls'] == 'Raw' else d['cls']
 
 
-def module_src(sigs, xsrcs, pairsrcs, nested=None, used=None):
+SHAPE_INIT = """    def __init__(self) -> None:
+        super().__init__()
+        _k = _INIT[0]
+        if _k is not None:
+            _k['ran'] = True
+            try:
+                getattr(self, _k['name'])(*_k['pos'], **_k['kw'])
+            except BaseException as _e:
+                _k['exc'] = _e
+"""
+
+
+def module_src(sigs, xsrcs, pairsrcs, nested=None, used=None, shapes=None):
     """sigs: {generated name: signature}; xsrcs: source texts X of the Box[X] / BoxI[X] instances; pairsrcs: 'X, Y' texts;
     nested: {generated name: (signature, [(how, name of the nested function)], mode)} — functions whose body makes nested calls;
     used: {generated name: set of VARIANTS} — where a function is needed (default: everywhere)"""
@@ -1273,6 +1700,14 @@ def module_src(sigs, xsrcs, pairsrcs, nested=None, used=None):
     out.append(''.join(method_src('cm_' + n, s, self_kw='cls', deco='@classmethod', kids=kids, mode=mode) for n, s, kids, mode in rows('classm')))
     out.append('\n@pedantic_class\nclass BoxI(Generic[T]):\n    def __init__(self, a: T) -> None: self.a = a\n' + methods('BoxI'))
     out.append('\n@pedantic_class\nclass Pair(Generic[T, S]):\n' + methods('Pair'))
+    # class shapes: shapes = {variant: (shape id, defines __init__, [source texts of the type arguments])}
+    if shapes:
+        out.append('\n' + SHAPE_PRELUDE + '\n@pedantic_class\nclass UBase(Generic[T]):\n    def ubase_put(self, item: T) -> None: pass\n')
+    for v, (sid, has_init, xs) in sorted((shapes or {}).items()):
+        out.append(f'\n@pedantic_class\nclass {v}({SHAPES[sid]}):\n' + (SHAPE_INIT if has_init else '') + SHAPE_EXTRA.get(sid, '') + methods(v))
+        for k, x in enumerate(xs):
+            out.append(f'\ndef mks_{v}_{k}():\n    x = {v}[{x}]()\n    return x\n')
+        out.append(f'\ndef mksraw_{v}():\n    return {v}()\n')
     out.append('\n@pedantic_class\nclass NG:\n' + methods('NG'))
     out.append('\nclass Direct:\n' + (''.join(method_src(n, s, deco='@pedantic', kids=kids, mode=mode) for n, s, kids, mode in rows('Direct')) or '    pass\n'))
     out.append('\n' + ''.join(method_src('f_' + n, s, self_kw='', deco='@pedantic', indent='', kids=kids, mode=mode) for n, s, kids, mode in rows('plain')))
@@ -1294,9 +1729,9 @@ def module_src(sigs, xsrcs, pairsrcs, nested=None, used=None):
     out.append('\ndef mkng():\n    return NG()\n')
     out.append('\ndef mkdirect():\n    return Direct()\n')
     out.append('\ndef scan(name, kw):\n    x = Box()\n    return getattr(x, name)(**kw)\n')
-    out.append('\ndef call(obj, name, kw):\n    return getattr(obj, name)(**kw)\n')
-    out.append('\ndef call_gen(obj, name, kw):\n    return list(getattr(obj, name)(**kw))\n')
-    out.append('\ndef call_async(obj, name, kw):\n    return asyncio.run(getattr(obj, name)(**kw))\n')
+    out.append('\ndef call(obj, name, kw, pos=()):\n    return getattr(obj, name)(*pos, **kw)\n')
+    out.append('\ndef call_gen(obj, name, kw, pos=()):\n    return list(getattr(obj, name)(*pos, **kw))\n')
+    out.append('\ndef call_async(obj, name, kw, pos=()):\n    return asyncio.run(getattr(obj, name)(*pos, **kw))\n')
     return ''.join(out)
 
 
@@ -1329,11 +1764,12 @@ def _worker(cases):
     # every signature and every X of this batch goes into one generated module
     sigs, xsrcs, pairsrcs, nested = {sig_name(WARM): WARM}, {}, {}, {}
     used = {sig_name(WARM): set(VARIANTS)}
+    shapes = {}
     for c in cases:
         for st in c['x']['steps']:
-            if st['op'] != 'init':
-                for nd in [st] + list(walk_nodes(st)):
-                    v = variant_of(c['x']['insts'][nd['i']]['cls'])
+            if st['op'] != 'init' or st.get('kids'):
+                for nd in ([st] if st['op'] != 'init' else []) + list(walk_nodes(st)):
+                    v = variant_of(c['x']['insts'][nd['i']])
                     sigs[sig_name(nd['sig'])] = nd['sig']        # the function with the empty body (also used for "the same call alone")
                     used.setdefault(sig_name(nd['sig']), set()).add(v)
                     used.setdefault(node_name(nd), set()).add(v)
@@ -1345,13 +1781,18 @@ def _worker(cases):
                 xsrcs.setdefault(ann_src(d['X'][0]), len(xsrcs))
             elif d['cls'] == 'Pair':
                 pairsrcs.setdefault(ann_src(d['X'][0]) + ', ' + ann_src(d['X'][1]), len(pairsrcs))
+            elif d['cls'] == 'Shape':
+                ent = shapes.setdefault(shape_variant(d), (d['shape'], bool(d.get('init')), []))
+                used[sig_name(WARM)].add(shape_variant(d))
+                if d.get('X') is not None and shape_x(d) not in ent[2]:
+                    ent[2].append(shape_x(d))
     tmp = tempfile.mkdtemp(prefix='pedtv_')
     _counter[0] += 1
     modname = f'pedtv_{os.getpid()}_{_counter[0]}'
     try:
         path = os.path.join(tmp, modname + '.py')
         with open(path, 'w') as f:
-            f.write(module_src(sigs, list(xsrcs), list(pairsrcs), nested, used))
+            f.write(module_src(sigs, list(xsrcs), list(pairsrcs), nested, used, shapes))
         spec = importlib.util.spec_from_file_location(modname, path)
         mod = importlib.util.module_from_spec(spec)
         sys.modules[modname] = mod
@@ -1360,6 +1801,9 @@ def _worker(cases):
                    'tuple': tuple, 'type': type, 'P': mod.P, 'C1': mod.C1, 'C2': mod.C2, 'G': mod.G, 'U': mod.U, 'set': set, 'frozenset': frozenset}
         if [[1 if issubclass(classes[a], classes[b]) else 0 for b in CL] for a in CL] != SUB:
             raise RuntimeError('class table of the generated module differs from the table sent to the model')
+        for v, (sid, _, _) in shapes.items():
+            if shape_facts(getattr(mod, v)) != shape_table()[sid]:
+                raise RuntimeError(f'class shape {v}: __bases__ / __parameters__ / __orig_bases__ of the decorated class differ from the facts sent to the model')
 
         def concrete(v, n=[0]):
             k = v[0]
@@ -1402,6 +1846,9 @@ def _worker(cases):
                 return getattr(mod, 'mki_' + str(xsrcs[ann_src(d['X'][0])]))(init_arg)
             if c == 'Pair':
                 return getattr(mod, ('mkpw_' if w else 'mkp_') + str(pairsrcs[ann_src(d['X'][0]) + ', ' + ann_src(d['X'][1])]))()
+            if c == 'Shape':
+                v = shape_variant(d)
+                return getattr(mod, 'mksraw_' + v)() if d.get('X') is None else getattr(mod, f'mks_{v}_{shapes[v][2].index(shape_x(d))}')()
             return {'Raw': mod.mkraw, 'NG': mod.mkng, 'Direct': mod.mkdirect}[c]()
 
         def target(d, obj, name):
@@ -1414,11 +1861,21 @@ def _worker(cases):
                 return mod.Box, 'cm_' + name
             return obj, name
 
-        def kwargs_of(st):
+        def args_of(st):
+            """(positional values, keyword values) of the call: with values for *args the named parameters are passed by position"""
             kw = {n: concrete(st['vals'][n]) for n, _ in st['sig']['ps'] if n in st['vals']}
             if st['sig']['ret'] is not None:
                 kw['r'] = [concrete(y) for y in st['r']] if st['sig'].get('flav') in GEN_FLAVS else concrete(st['r'])
-            return kw
+            pos = ()
+            if st.get('pos'):
+                pos = tuple(kw.pop(n) for n in [n for n, _ in st['sig']['ps']] + (['r'] if st['sig']['ret'] is not None else [])) \
+                    + tuple(concrete(v) for v in st['pos'])
+            for k, v in st.get('xkw') or []:
+                kw[k] = concrete(v)
+            return pos, kw
+
+        def kwargs_of(st):
+            return args_of(st)[1]
 
         def try_make(d, init_arg=None, warm=None, lifetimes=True):
             """(instance or None, outcome class of the creation); lifetimes: created at the address of a discarded instance (see make)"""
@@ -1427,18 +1884,19 @@ def _worker(cases):
             return box.get('o'), out
 
         def journal_node(nd, objs):
-            return {'kw': kwargs_of(nd), 'obj': objs.get(nd['i']), 'kids': [journal_node(k, objs) for k in nd.get('kids') or []], 'ran': False, 'exc': None,
+            pos_, kw_ = args_of(nd)
+            return {'kw': kw_, 'pos': pos_, 'obj': objs.get(nd['i']), 'kids': [journal_node(k, objs) for k in nd.get('kids') or []], 'ran': False, 'exc': None,
                     'done': False, 'got': [], 'order': list(nd.get('order') or [])}
 
-        def perform(obj, nm, kw, flav):
+        def perform(obj, nm, kw, flav, pos=()):
             """make the call and see it through: exhaust the generator, run the coroutine to its end"""
             if flav in GEN_FLAVS:
-                return classify(lambda: mod.call_gen(obj, nm, kw))
+                return classify(lambda: mod.call_gen(obj, nm, kw, pos))
             if flav == 'async':
-                return classify(lambda: mod.call_async(obj, nm, kw))
+                return classify(lambda: mod.call_async(obj, nm, kw, pos))
             mod._CUR[0] = {'kids': []}
             try:
-                return classify(lambda: mod.call(obj, nm, kw))
+                return classify(lambda: mod.call(obj, nm, kw, pos))
             finally:
                 mod._CUR[0] = None
 
@@ -1450,7 +1908,7 @@ def _worker(cases):
         def alone(nd, d, inits):
             """the same call — signature and values, with an EMPTY body — made alone: on a fresh instance created the same way / as a
             plain call.  None for an unparametrised instance (its bindings are meant to persist)."""
-            if d['cls'] == 'Raw':
+            if d['cls'] == 'Raw' or (d['cls'] == 'Shape' and d.get('X') is None):
                 return None
             fresh = None
             if d['cls'] in INSTANCE_KINDS:
@@ -1460,7 +1918,8 @@ def _worker(cases):
                 if out != 'ok':
                     return 'CREATE:' + out
             obj, nm = target(d, fresh, sig_name(nd['sig']))
-            return perform(obj, nm, kwargs_of(nd), nd['sig'].get('flav'))
+            pos_, kw_ = args_of(nd)
+            return perform(obj, nm, kw_, nd['sig'].get('flav'), pos_)
 
         results = []
         for c in cases:
@@ -1473,6 +1932,26 @@ def _worker(cases):
                 name = node_name(st)
                 nested_outs.append([])
                 nested_solo.append([])
+                if st['op'] == 'init' and d['cls'] == 'Shape':
+                    # the constructor; its __init__ makes the call `kids[0]` (if any) on the instance under construction and journals what it raises
+                    kid = (st.get('kids') or [None])[0]
+                    jk = None
+                    if kid is not None:
+                        pos_, kw_ = args_of(kid)
+                        jk = {'name': sig_name(kid['sig']), 'pos': pos_, 'kw': kw_, 'ran': False, 'exc': None}
+                    mod._INIT[0] = jk
+                    try:
+                        objs[i], out = try_make(d)
+                    finally:
+                        mod._INIT[0] = None
+                    if out != 'ok':
+                        broken[i] = 'CREATE:' + out
+                    outs.append(out)
+                    solo.append(None)
+                    if kid is not None:
+                        nested_outs[-1] = [classify_exc(jk['exc']) if jk['ran'] else None]
+                        nested_solo[-1] = [None]
+                    continue
                 if st['op'] == 'init':
                     inits[i] = st['vals']['a']
                     objs[i], out = try_make(d, concrete(st['vals']['a']))
@@ -1503,14 +1982,14 @@ def _worker(cases):
                 obj, nm = target(d, objs.get(i), name)
                 jn = journal_node(st, objs)
                 mod._CUR[0] = jn
-                outs.append(classify(lambda: mod.call(obj, nm, jn['kw'])))
+                outs.append(classify(lambda: mod.call(obj, nm, jn['kw'], jn['pos'])))
                 mod._CUR[0] = None
                 if st.get('kids'):
                     solo.append(alone(st, d, inits))
                     for nd, j in zip(walk_nodes(st), flat(jn)):
                         nested_outs[-1].append(classify_exc(j['exc']) if j['ran'] else None)
                         nested_solo[-1].append(alone(nd, insts[nd['i']], inits) if j['ran'] else None)
-                elif d['cls'] in ('Box', 'BoxI', 'Pair'):
+                elif d['cls'] in ('Box', 'BoxI', 'Pair') or (d['cls'] == 'Shape' and d.get('X') is not None):
                     solo.append(alone(st, d, inits))         # the same call alone on a fresh instance created the same way
                 else:
                     solo.append(None)
@@ -1537,14 +2016,19 @@ def run_impl(cases):
 
 def describe_call(case, st):
     d = case['x']['insts'][st['i']]
-    who = d['cls'] + ('[' + ', '.join(ann_src(x) for x in d['X']) + ']' if 'X' in d else '')
+    who = (f"class {shape_variant(d)}({SHAPES[d['shape']]})" if d['cls'] == 'Shape' else d['cls']) + ('[' + ', '.join(ann_src(x) for x in d['X']) + ']' if d.get('X') else '')
     s = st['sig']
     flav = s.get('flav')
     res = {'iter': 'Iterator[%s]', 'gen': 'Generator[%s, None, None]', 'itb': 'Iterable[%s]'}.get(flav, '%s')
-    sg = '(' + ', '.join(f'{n}: {ann_src(a)}' + (f' = {val_src(s["defs"][n])}' if n in (s.get('defs') or {}) else '') for n, a in s['ps']) + ')' \
+    sg = '(' + ', '.join([f'{n}: {ann_src(a)}' + (f' = {val_src(s["defs"][n])}' if n in (s.get('defs') or {}) else '') for n, a in s['ps']]
+                         + ([f"*args: {ann_src(s['va'])}"] if 'va' in s else []) + ([f"**{s['vk'][0]}: {ann_src(s['vk'][1])}"] if 'vk' in s else [])) + ')' \
         + (' -> ' + res % ann_src(s['ret']) if s['ret'] is not None else '')
     what = {'iter': 'generator call', 'gen': 'generator call', 'itb': 'generator call', 'async': 'coroutine call', 'rec': 'call of the recursive'}.get(flav, st.get('op', 'call'))
     txt = f'on #{st["i"]} {who}: {what} {sg} with {json.dumps(st["vals"])}'
+    if st.get('pos'):
+        txt += f' (passed by position) and *args = {json.dumps(st["pos"])}'
+    if st.get('xkw'):
+        txt += ' and the extra keywords ' + ', '.join(f'{k}={json.dumps(v)}' for k, v in st['xkw'])
     if st.get('r') is not None:
         txt += (f' yielding {json.dumps(st["r"])}' if flav in GEN_FLAVS else f' returning {json.dumps(st["r"])}')
     if st.get('kids'):
@@ -1567,6 +2051,8 @@ def norm(o):
 
 def demand(v, o):
     """what the verdict of the specification demands of the outcome class of the implementation; None: met"""
+    if o.startswith('ESC') or o.startswith('CREATE:ESC'):
+        return f'{o}: an exception that is no PedanticException left the wrapper'
     if v == 'accept' and o != 'ok':
         return f'rejected ({o}) although every value is compatible / conforms'
     if v in ('tvm', 'tvmInUnion') and o != 'PED:TypeVarMismatch':
@@ -1582,6 +2068,8 @@ def judge(case, impl, model):
     steps = case['x']['steps']
     in_, is_ = impl.get('nested') or [[] for _ in outs], impl.get('nsolo') or [[] for _ in outs]
     mn, ns, nr = model.get('nested') or [[] for _ in outs], model.get('nspec') or [[] for _ in outs], model.get('nregions') or [[] for _ in outs]
+    if model.get('nshape'):
+        nr = [[(sh[q] if q < len(sh) else []) + r for q, r in enumerate(rs)] for rs, sh in zip(nr, model['nshape'])]
     corr = [norm(o) for o in outs] == mo
     why = ''
     if not corr:
